@@ -285,7 +285,13 @@ func execC18(env *sim.Env, c C18Case) CaseResult {
 				add("C18/stdout", "print-differs", fmt.Sprintf("-print output differs from the code: %s", firstDiff(code, so)))
 			}
 		} else if len(r.Obs.Stdout) != 0 {
-			add("C18/stdout", "unexpected-stdout", fmt.Sprintf("stdout not empty without -print: %q", clip(r.Obs.Stdout, 200)))
+			// The statement says what -print adds to stdout, not that stdout is silent
+			// without it (a progress or summary line there breaks nothing it promises):
+			// counted and noted, not a verdict
+			st.Inc("n:runs_with_stdout_but_without_print")
+			if st.Counters["n:runs_with_stdout_but_without_print"] == 1 {
+				st.Note("stdout not empty without -print (not a violation of the statement): %q", clip(r.Obs.Stdout, 120))
+			}
 		}
 		// 5. files created: exactly the output (unless -dry) and the log (iff -log)
 		diffs := r.Pre.Diff(r.Post)
